@@ -32,6 +32,7 @@ OpResultValue(op, ta, ra, tb, rb) ==
       [] op = "mul" -> <<Mul(ra, rb), TExp(ta) + TExp(tb)>>
       [] op = "div" -> <<RoundQ(ra, rb, RoundingOf(ta)), TExp(ta) - TExp(tb)>>
       [] op = "neg" -> <<Neg(ra), TExp(ta)>>                       \* unary minus (b is ignored)
+      [] op = "mod" -> <<TruncRem(ra, rb), TExp(ta)>>             \* remainder of the representations, at a's exponent
 
 \* order of the values of two registers: -1, 0, 1
 CmpValue(ta, ra, tb, rb) ==
@@ -75,6 +76,7 @@ TmpDigits(op, ta, tb) ==
       [] op = "mul" -> TDig(ta) + TDig(tb)
       [] op = "div" -> TDig(ta)
       [] op = "neg" -> TDig(ta)
+      [] op = "mod" -> MinI(TDig(ta), TDig(tb))
 StorageDigits(t) == TDigits(AsIntT(InnerT(t)))
 \* elastic / casts both operands to the dividend-sized representation (ELASTIC-DIVMOD-NARROWS-OPERAND)
 DivOperandNarrowed(op, ta, ra, tb, rb) == op = "div" /\ BitLen(rb) > MaxI2(TDig(ta), StorageDigits(ta))
@@ -93,5 +95,10 @@ ShrLeavesRange(op, ta, ra, tb, rb, td) ==
     LET val == OpResultValue(op, ta, ra, tb, rb)  sh == val[2] - TExp(td)  dg == TmpDigits(op, ta, tb) + sh IN
     sh < 0 /\ RoundingOf(td) \in {"neg_inf", "tie_to_pos_inf"} /\ val[1].n
            /\ Le(RoundQ(val[1], Pow2(-sh), RoundingOf(td)), Neg(Pow2(MaxI2(0, dg))))
+\* the conversion to a coarser destination shifts the operator's result right by at least as many bits as that result has
+\* digits (only % produces results this short): the shift count is not smaller than the width of the narrow storage type
+ShiftExceedsDigits(op, ta, ra, tb, rb, td) ==
+    LET val == OpResultValue(op, ta, ra, tb, rb)  sh == val[2] - TExp(td) IN
+    sh < 0 /\ RoundingOf(td) # "native" /\ -sh >= TmpDigits(op, ta, tb)
 Signalled(op, ta, ra, tb, rb, td) == ConvertTo(OpResultValue(op, ta, ra, tb, rb), td).k # "val"
 =============================================================================
